@@ -9,7 +9,7 @@ from . import ops as O
 from .ops import And, Or, Not, ite, Implies
 from .tensor import Tn, Cell, Unsupported, basic_index, norm_slice
 from .values import (SymRaise, PathEnd, SStr, DType, Opaque, LibFn, BoundMethod, RepoFn, PyType,
-                     Iter, CatList, StackList, UNDEF, ModuleRef, StarAbstract)
+                     Iter, CatList, StackList, UNDEF, ModuleRef, StarAbstract, KeyedLists, KeyedListRef)
 from .interp import MinMax, unwrap_scalar, is_boolish, is_realish, is_scalar
 
 LIB = {}
@@ -357,6 +357,10 @@ def _getitem(fr, base, key, site=None):
         return tuple(items)
     if isinstance(base, SStr):
         return ('char', base, key)
+    if isinstance(base, KeyedLists):
+        k = unwrap_scalar(key)
+        ctx.index_check(Or(k < -base.count, k >= base.count), And(0 <= k, k < base.count), None, 0, site)
+        return KeyedListRef(base, k)
     if isinstance(base, Opaque):
         h = LIB.get('getitem:' + base.cls)
         if h is not None:
@@ -1693,6 +1697,13 @@ def _set(fr, xs=()):
     raise Unsupported("set of symbolic values")
 
 
+@lib('numpy.random.randint', 'numpy.random.seed', 'numpy.random.permutation')
+def _global_rng(fr, *a, **kw):
+    """the process-global numpy generator: a nondeterministic source (ghost event)"""
+    fr.ctx.events.append(('unseeded_random_source', 'numpy.random global state'))
+    return O.fresh_int('global_rng')
+
+
 @lib('time.time')
 def _time(fr):
     return O.fresh_real('time')
@@ -1768,6 +1779,63 @@ def _d_get(fr, d, k, default=None):
 @method('str.format', 'str.join', 'str.strip', 'str.upper', 'str.replace')
 def _s_any(fr, s, *a, **kw):
     return "<str>"
+
+
+@method('KeyedLists.append')
+def _kls_append(fr, P, item):
+    if not (isinstance(item, list) and len(item) == 0):
+        raise Unsupported("append of a non-empty list to a keyed-list family")
+    P.count = P.count + 1
+
+
+@method('KeyedListRef.append')
+def _kl_append(fr, ref, tup):
+    P = ref.parent
+    if not isinstance(tup, tuple) or len(tup) <= P.nkey:
+        raise Unsupported("append of a non-tuple to a keyed list")
+    key = [unwrap_scalar(x) for x in tup[:P.nkey]]
+    pay = tuple(unwrap_scalar(x) for x in tup[P.nkey:])
+    k0 = ref.k
+    oldm, oldp = P.member, P.payload
+
+    def member(k, *ks):
+        return Or(And(O.eq(k, k0), *[O.eq(a, b) for a, b in zip(ks, key)]), oldm(k, *ks))
+
+    def payload(k, *ks):
+        hit = And(O.eq(k, k0), *[O.eq(a, b) for a, b in zip(ks, key)])
+        old = oldp(k, *ks)
+        return tuple(ite(hit, x, y) for x, y in zip(pay, old))
+    if fr.ctx.prange:
+        pr = fr.ctx.prange[-1]
+        fr.ctx.oblige("prange-frame:iteration-appends-to-own-list@%s" % next(fr.ctx.sitectr), O.eq(k0, pr['var']), 'frame')
+    P.member, P.payload = member, payload
+
+
+@lib('numpy.int64', 'numpy.uint64', 'numpy.int32', 'numpy.int8', 'numpy.int16')
+def _np_intcast(fr, x=0):
+    x = unwrap_scalar(x)
+    if is_realish(x):
+        return _int(fr, x)
+    return x
+
+
+@lib('numpy.float64', 'numpy.float32')
+def _np_floatcast(fr, x=0.0):
+    return _float(fr, x)
+
+
+EXP2 = z3.Function('EXP2', z3.RealSort(), z3.RealSort())
+
+
+@lib('pow')
+def _pow(fr, base, e):
+    b = O.simp(base)
+    if isinstance(b, (int, float)) and float(b) == 2.0:
+        ez = O.to_z3(e)
+        if z3.is_int(ez):
+            ez = z3.ToReal(ez)
+        return EXP2(ez)
+    raise Unsupported("symbolic power")
 
 
 @method('CatList.append')
